@@ -8,6 +8,7 @@ import (
 	"testing"
 	"time"
 
+	"github.com/eclipse/paho.mqtt.golang/packets"
 	librl "github.com/megaease/easegress/pkg/util/ratelimiter"
 )
 
@@ -18,6 +19,10 @@ type c09mIn struct {
 	BytesRate   int        `json:"bytesRate"`
 	TimePeriod  int        `json:"timePeriod"`
 	Ops         [][2]int64 `json:"ops"` // (dt ns, packet bytes)
+	// Flags, when present (one per op): (DUP bit, QoS) of the PUBLISH packet; the op then goes through
+	// Client.checkPublishLimit (the glue processPublish calls) instead of the limiter directly. The model
+	// does not see them: every PUBLISH is charged, whatever its DUP bit and QoS.
+	Flags [][2]int `json:"flags,omitempty"`
 }
 
 type c09mObs struct {
@@ -30,7 +35,8 @@ func c09mRun(in c09mIn) (obs c09mObs) {
 	defer librl.VerifSetNow(nil)
 	l := newLimiter(&RateLimit{RequestRate: in.RequestRate, BytesRate: in.BytesRate, TimePeriod: in.TimePeriod})
 	obs.Outs = []int{}
-	for _, op := range in.Ops {
+	cl := &Client{publishLimit: l}
+	for i, op := range in.Ops {
 		now = now.Add(time.Duration(op[0]))
 		func() {
 			defer func() {
@@ -38,7 +44,16 @@ func c09mRun(in c09mIn) (obs c09mObs) {
 					obs.Outs = append(obs.Outs, 2)
 				}
 			}()
-			if l.acquirePermission(int(op[1])) {
+			ok := false
+			if i < len(in.Flags) {
+				pk := packets.NewControlPacket(packets.Publish).(*packets.PublishPacket)
+				pk.Dup, pk.Qos = in.Flags[i][0] != 0, byte(in.Flags[i][1])
+				pk.RemainingLength = int(op[1]) - 8 // checkPublishLimit charges RemainingLength + 8
+				ok = cl.checkPublishLimit(pk)
+			} else {
+				ok = l.acquirePermission(int(op[1]))
+			}
+			if ok {
 				obs.Outs = append(obs.Outs, 1)
 			} else {
 				obs.Outs = append(obs.Outs, 0)
@@ -94,6 +109,9 @@ func TestVerifC09Mqtt(t *testing.T) {
 			el += dt
 			b := int64(r.PickInt(0, 1, 2, 5, 9, 10, 11, 40, 64, 100, 150))
 			in.Ops = append(in.Ops, [2]int64{dt, b})
+			if i%2 == 1 {
+				in.Flags = append(in.Flags, [2]int{r.PickInt(0, 0, 1, 1), r.PickInt(0, 1, 1, 2)})
+			}
 		}
 		out.Emit(vfCase{ID: fmt.Sprintf("%s-mqtt-%d", src, i), Src: src, Grp: "mqtt", In: in, Obs: c09mRun(in)})
 	}
